@@ -517,23 +517,15 @@ func ruleNilResult(c *Ctx, r *Rep) {
 					}
 				}
 			}
-			bin, ok := g.Cond.(*ssa.BinOp)
-			if !ok {
+			tested, isNil, isTest := nilTestOf(g.Cond, g.Truth)
+			if !isTest || isNil {
 				continue
 			}
-			k, isK := bin.Y.(*ssa.Const)
-			if !isK || k.Value != nil {
-				continue
-			}
-			nonNil := (bin.Op == token.NEQ) == g.Truth
-			if !nonNil {
-				continue
-			}
-			if bin.X == x {
+			if tested == x {
 				return true
 			}
-			k2 := accessKey(bin.X)
-			if ld, ok := bin.X.(*ssa.UnOp); ok && ld.Op == token.MUL {
+			k2 := accessKey(tested)
+			if ld, ok := tested.(*ssa.UnOp); ok && ld.Op == token.MUL {
 				k2 = "*" + accessKey(ld.X)
 			}
 			if key != "" && key != "*" && k2 == key {
@@ -721,4 +713,111 @@ func derivesFromFreeVar(arg ssa.Value, fv *ssa.FreeVar) bool {
 		return true
 	}
 	return false
+}
+
+// ---------------------------------------------------------------------------
+
+func init() {
+	register(&Rule{Name: "ENC-PRESENCE", Floor: 4, Run: ruleEncPresence, Fixture: "fixture.presentButZero",
+		Doc: "in the encoders of the certificate package an optional part kept as an interface value or a pointer is there exactly when it is not nil: a condition on the way to its encoding that looks at such a field is a comparison with nil (or a one-expression helper that is one), never a test of what the value holds (an address 0.0.0.0, an empty name, a zero number are values, not absence)"})
+}
+
+func ruleEncPresence(c *Ctx, r *Rep) {
+	optional := func(t types.Type) bool {
+		switch t.Underlying().(type) {
+		case *types.Interface, *types.Pointer:
+			return true
+		}
+		return false
+	}
+	// the field a value was read from (a load of a FieldAddr, or a Field of a struct value), looking through
+	// conversions to an interface
+	fieldRead := func(v ssa.Value) (*types.Var, bool) {
+		for i := 0; i < 3; i++ {
+			switch x := v.(type) {
+			case *ssa.MakeInterface:
+				v = x.X
+				continue
+			case *ssa.ChangeInterface:
+				v = x.X
+				continue
+			}
+			break
+		}
+		switch x := v.(type) {
+		case *ssa.UnOp:
+			if fa, ok := x.X.(*ssa.FieldAddr); ok && x.Op == token.MUL {
+				return fieldOfAddr(fa), true
+			}
+		case *ssa.Field:
+			if st, ok := x.X.Type().Underlying().(*types.Struct); ok {
+				return st.Field(x.Field), true
+			}
+		}
+		return nil, false
+	}
+	exactNilPredicate := func(f *ssa.Function) bool {
+		if f == nil || len(f.Blocks) != 1 {
+			return false
+		}
+		ret, ok := lastInstr(f.Blocks[0]).(*ssa.Return)
+		if !ok || len(ret.Results) != 1 {
+			return false
+		}
+		x, _, isTest := nilTestOf(ret.Results[0], true)
+		_, isPrm := x.(*ssa.Parameter)
+		_, isBin := ret.Results[0].(*ssa.BinOp)
+		return isTest && isPrm && isBin
+	}
+	for _, fn := range c.Funcs {
+		if fn.Blocks == nil || fn.Pkg == nil {
+			continue
+		}
+		if c.Mod == modPath && !strings.HasSuffix(fn.Pkg.Pkg.Path(), "generator/cert") {
+			continue
+		}
+		n := 0
+		for _, b := range fn.Blocks {
+			iff, ok := lastInstr(b).(*ssa.If)
+			if !ok {
+				continue
+			}
+			cond := iff.Cond
+			for {
+				u, isNot := cond.(*ssa.UnOp)
+				if !isNot || u.Op != token.NOT {
+					break
+				}
+				cond = u.X
+			}
+			switch x := cond.(type) {
+			case *ssa.BinOp:
+				tested, _, isTest := nilTestOf(x, true)
+				if !isTest {
+					continue
+				}
+				if f, isField := fieldRead(tested); isField && optional(f.Type()) && c.IsModObj(f) {
+					n++
+					r.Ok(sprintf("presence|%s#%d", c.FuncKey(fn), n), c.Pos(x.Pos()), "the presence of an optional part is its not being nil", "."+f.Name()+" compared with nil")
+				}
+			case *ssa.Call:
+				for _, a := range x.Call.Args {
+					f, isField := fieldRead(a)
+					if !isField || !optional(f.Type()) || !c.IsModObj(f) {
+						continue
+					}
+					if x.Call.IsInvoke() {
+						continue
+					}
+					if !isBoolType(x.Type()) {
+						continue
+					}
+					n++
+					callee := x.Call.StaticCallee()
+					ok := exactNilPredicate(callee)
+					r.Check(ok, sprintf("presence|%s#%d", c.FuncKey(fn), n), c.Pos(x.Pos()), "the presence of an optional part is its not being nil", okOr(ok, "a helper that compares with nil", "."+f.Name()+" is handed to "+calleeFullName(x)+", which looks at more than its nil-ness: a value that is there can count as absent"))
+				}
+			}
+		}
+	}
 }
